@@ -25,5 +25,7 @@ def check(ctx, rep):
     # no state outlives a call: no shared write reachable from the entry points of this property
     from ..rules import eff as _eff
     _eff.eff_1(ctx, rep, only=[('parso/grammar.py', 'Grammar.iter_errors'), ('parso/grammar.py', 'Grammar._get_normalizer_issues')], minimum=20)
+    from ..rules import normr as _n11
+    _n11.norm_11(ctx, rep)      # prefix part columns: first-line state does not leak into later lines
     rep.note('Not decided: absence of every implicit exception (None dereferences that depend on tree invariants), '
              'position ranges. Dependency: RX-1 (C09) - two rules call _split_prefix.')
